@@ -478,52 +478,6 @@ func run(c *engine.Ctx) {
 			c.Case(fmt.Sprintf("bytes/%q", p), func(r *engine.R) { bytesBlock(r, p, maxLen-2, false) })
 		}
 	}
-	// (b)
-	all := allLexemes()
-	c.Case("tokens/alphabet", func(r *engine.R) {
-		r.Count("lexemes_in_full_alphabet", len(all))
-		r.Eval(1)
-	})
-	// pairs: one case per (first lexeme, block of 8 second lexemes) so that a case type-checks at most 8 programs
-	// (cases must stay far below the hang watchdog even on a heavily loaded machine)
-	for i := 0; i < len(all); i += 8 {
-		part := all[i:min(i+8, len(all))]
-		c.Case(fmt.Sprintf("tokens/singles/%d", i), func(r *engine.R) {
-			if i == 0 {
-				parseInput(r, "", false)
-			}
-			exactSeqCase(r, nil, part, 1)
-		})
-	}
-	for _, l := range all {
-		for i := 0; i < len(all); i += 8 {
-			f := []string{l}
-			part := all[i:min(i+8, len(all))]
-			c.Case(fmt.Sprintf("tokens/pairs/%q/%d", l, i), func(r *engine.R) { exactSeqCase(r, f, part, 1) })
-		}
-	}
-	for _, l1 := range coreLexemes {
-		for _, l2 := range coreLexemes {
-			for i := 0; i < len(coreLexemes); i += 16 {
-				f := []string{l1, l2}
-				part := coreLexemes[i:min(i+16, len(coreLexemes))]
-				c.Case(fmt.Sprintf("tokens/core3/%q %q/%d", l1, l2, i), func(r *engine.R) { exactSeqCase(r, f, part, 1) })
-			}
-		}
-	}
-	if c.Thorough {
-		for _, l1 := range coreLexemes {
-			for _, l2 := range coreLexemes {
-				for _, l3 := range coreLexemes {
-					for i := 0; i < len(coreLexemes); i += 16 {
-						f := []string{l1, l2, l3}
-						part := coreLexemes[i:min(i+16, len(coreLexemes))]
-						c.Case(fmt.Sprintf("tokens/core4/%q %q %q/%d", l1, l2, l3, i), func(r *engine.R) { exactSeqCase(r, f, part, 1) })
-					}
-				}
-			}
-		}
-	}
 	// (c)
 	rlen := 3
 	if c.Thorough {
@@ -579,5 +533,51 @@ func run(c *engine.Ctx) {
 			}
 			r.Sample("REPL fragment: " + part[len(part)-1])
 		})
+	}
+	// (b) last: its length-4 part is by far the largest space, so a deadline cuts there and not in (c)/(d)
+	all := allLexemes()
+	c.Case("tokens/alphabet", func(r *engine.R) {
+		r.Count("lexemes_in_full_alphabet", len(all))
+		r.Eval(1)
+	})
+	// pairs: one case per (first lexeme, block of 8 second lexemes) so that a case type-checks at most 8 programs
+	// (cases must stay far below the hang watchdog even on a heavily loaded machine)
+	for i := 0; i < len(all); i += 8 {
+		part := all[i:min(i+8, len(all))]
+		c.Case(fmt.Sprintf("tokens/singles/%d", i), func(r *engine.R) {
+			if i == 0 {
+				parseInput(r, "", false)
+			}
+			exactSeqCase(r, nil, part, 1)
+		})
+	}
+	for _, l := range all {
+		for i := 0; i < len(all); i += 8 {
+			f := []string{l}
+			part := all[i:min(i+8, len(all))]
+			c.Case(fmt.Sprintf("tokens/pairs/%q/%d", l, i), func(r *engine.R) { exactSeqCase(r, f, part, 1) })
+		}
+	}
+	for _, l1 := range coreLexemes {
+		for _, l2 := range coreLexemes {
+			for i := 0; i < len(coreLexemes); i += 16 {
+				f := []string{l1, l2}
+				part := coreLexemes[i:min(i+16, len(coreLexemes))]
+				c.Case(fmt.Sprintf("tokens/core3/%q %q/%d", l1, l2, i), func(r *engine.R) { exactSeqCase(r, f, part, 1) })
+			}
+		}
+	}
+	if c.Thorough {
+		for _, l1 := range coreLexemes {
+			for _, l2 := range coreLexemes {
+				for _, l3 := range coreLexemes {
+					for i := 0; i < len(coreLexemes); i += 16 {
+						f := []string{l1, l2, l3}
+						part := coreLexemes[i:min(i+16, len(coreLexemes))]
+						c.Case(fmt.Sprintf("tokens/core4/%q %q %q/%d", l1, l2, l3, i), func(r *engine.R) { exactSeqCase(r, f, part, 1) })
+					}
+				}
+			}
+		}
 	}
 }
